@@ -75,7 +75,7 @@ theorem guard_fwdMerc (c : MercC α) (lon lat : α) :
          .ok (s.x0 + s.a * c.k0 * adjustLon (lon - s.long0), s.y0 + s.a * c.k0 * log (tan (fortPi + 0.5 * lat)))
        else
          let sinphi := sin lat
-         let ts := tsfnz s.e lat sinphi
+         let ts := tsfnz c.e lat sinphi
          .ok (s.x0 + s.a * c.k0 * adjustLon (lon - s.long0), s.y0 - s.a * c.k0 * log ts)) := rfl
 
 /-! ## lcc.go -/
